@@ -180,7 +180,11 @@ noncomputable def paramAt (ops : List Op) (i : ℕ) : ℝ :=
 theorem compactX_table : ∀ e ∈ exportShape, e.1 ≠ cs!"QASMU" → ∀ vals : List ℝ,
     compactX (gnameOf e.1) vals = compactC (gnameOf e.1) (vals.headD 0) := by
   intro e he hne vals
-  simp only [exportShape, List.mem_cons, List.not_mem_nil, or_false] at he
+  rw [exportShape, List.mem_append] at he
+  rcases he with he | he
+  swap
+  · rcases (mem_lateShape he).1 with rfl | rfl <;> rfl
+  simp only [baseShape, List.mem_cons, List.not_mem_nil, or_false] at he
   rcases he with rfl | rfl | rfl | rfl | rfl | rfl | rfl | rfl | rfl | rfl | rfl | rfl | rfl | rfl | rfl | rfl | rfl | rfl | rfl
   · exact absurd rfl hne
   all_goals rfl
